@@ -1,6 +1,6 @@
 CONSTANTS
   defaultInitValue = "none"
-  K = 5
+  K = 4
   Vocab <- VTiny
   Guards = TRUE
   EmitCases = FALSE
